@@ -45,6 +45,17 @@ def role_of(prog, key, _cache={}):
         for k2 in prog.bodies:
             if k2.startswith(key + "::{closure"):
                 own += list(prog.bodies[k2].calls())
+        # private helpers that only this function calls are part of it (`scan_address_prefix(hrp)` inside validate_address_prefix)
+        for _, t_ in list(own):
+            rk_ = t_.get("rkey")
+            hb_ = prog.body(rk_) if rk_ and rk_ != key else None
+            if hb_ is not None and hb_.kind == "fn" and hb_.crate == b.crate:
+                callers_ = set(cb_.key.split("::{closure")[0] for cb_ in prog.fn_bodies(b.crate) for _, ct_ in cb_.calls() if ct_.get("rkey") == rk_ and "::tests::" not in cb_.key)
+                if callers_ == {key}:
+                    own += list(hb_.calls())
+                    for k2 in prog.bodies:
+                        if k2.startswith(rk_ + "::{closure"):
+                            own += list(prog.bodies[k2].calls())
         names = [call_name(t) or "" for _, t in own]
         lits = set()
         for k2 in [key] + [k for k in prog.bodies if k.startswith(key + "::{closure")]:
